@@ -265,6 +265,12 @@ pub fn check_case(case: &C05Case, keep_trace: bool) -> C05Result {
     }
     let mut knobs = case.knobs.clone();
     knobs.sched_seed = splitmix64(case.knobs.sched_seed ^ (pi as u64 + 1));
+    if all_calls.len() > 2000 {
+      // after a long burst a stream has tens of thousands of chunks: consumer
+      // callbacks are not scheduling points then (they would exhaust the step
+      // budget of a run in which every thread makes progress)
+      knobs.cb_points = false;
+    }
     let objs: [&Dyn; 1] = [&r];
     let replay = case.schedules.get(pi).cloned().flatten();
     let out = run_concurrent_on(&objs, &threads, &knobs, replay, &flags);
